@@ -5,7 +5,7 @@ import re
 from vlib import core
 
 META = {
-    "disabled": True,
+    "disabled": False,
     "level": "model_checking",
     "level_text": "PatchChain.tla models the chain of patch_chain.rs (ordered insert with the code's tie rule, set_priority = remove + "
                   "re-insert, remove, clear, both parallel constructors, the or_insert map rebuild, patch-entry resolution) and states C08 "
@@ -58,7 +58,9 @@ def sig(b):
 
 def gen_cases(ctx, only=None):
     th = ctx.thorough
-    env = {"GEN_MAXLEN": 3 if th else 2, "GEN_DUPS": 1 if th else 0, "GEN_WALK": 0}
+    # every transition of the duplicate-free model with <= 2 (thorough: 3) entries: 5 052 / 36 102 histories;
+    # chains holding an archive twice are reached by the random walks below
+    env = {"GEN_MAXLEN": 3 if th else 2, "GEN_DUPS": 0, "GEN_WALK": 0}
     cases, n = ctx.gen("Gen_PatchChain", env=env, timeout=900, heap="6g")
     # long random histories (duplicates allowed), deterministic in VERIF_SEED
     depth, num = (30, 400) if th else (14, 60)
